@@ -97,6 +97,39 @@ Section ExecCone.
       ran_s P' sched y1 (sid s) ->
       kept P P' (sid s) = false \/ exec_cause_s P' sched y y1 (build_from run P' sched y1) s.
 
+  (* OPTIONAL steps (Need.OPTIONAL; scheduler._implied_need): [mand id] = the declared need of the step is above
+     OPTIONAL.  A step is REQUIRED when it is mandatory or when a required step later in the (topological) plan
+     consumes one of its outputs; only required steps are dispatched.  (The revert of optional steps that are no
+     longer required by finalize is not part of this model: such a step stays as it was.) *)
+  Definition consumes_output_of (c s : step) : bool := existsb (fun p => memN p (inp c)) (out s).
+  Fixpoint required_ids (mand : N -> bool) (proj : project) : list N :=
+    match proj with
+    | [] => []
+    | s :: rest =>
+      let r := required_ids mand rest in
+      if mand (sid s) || existsb (fun c => memN (sid c) r && consumes_output_of c s) rest then sid s :: r else r
+    end.
+  Definition is_required (mand : N -> bool) (proj : project) (s : step) : bool :=
+    memN (sid s) (required_ids mand proj).
+  Definition step_build_opt (mand : N -> bool) (proj : project) (s : step) (y : sys) : sys :=
+    if is_required mand proj s then step_build run proj s y else y.
+  Definition build_opt (mand : N -> bool) (proj : project) (y : sys) : sys :=
+    fold_left (fun y s => step_build_opt mand proj s y) proj y.
+  Definition ran_opt (mand : N -> bool) (proj : project) (y1 : sys) (id : N) : Prop :=
+    ran_s proj (filter (is_required mand proj) proj) y1 id.
+  (* every EXECUTED step is required - mandatory, or an output of it is consumed by a required step (an optional
+     step that became needed: the clause the property text lacks, D38) - and has a cause as before *)
+  Definition C04_exec_cone_optional : Prop :=
+    forall (mand : N -> bool) (P P' : project) (y : sys) (w : world) (s : step),
+      wf P' = true -> Pre run P y -> In s P' ->
+      let y1 := resync P' (retarget P P' y) w in
+      build_opt mand P' y1 = build_from run P' (filter (is_required mand P') P') y1 /\
+      (ran_opt mand P' y1 (sid s) ->
+       (mand (sid s) = true \/
+        exists c, In c P' /\ is_required mand P' c = true /\ consumes_output_of c s = true) /\
+       (kept P P' (sid s) = false \/
+        exec_cause_s P' (filter (is_required mand P') P') y y1 (build_opt mand P' y1) s)).
+
   (* The cone stops at an output that is rebuilt with identical content: a recycled step that was
      up to date, consumes no edited source, tracks no changed variable, and all of whose built
      inputs have the same content after the rebuild as before it, is NOT executed. *)
